@@ -140,7 +140,7 @@ static const char *const dict_ts[] = {
     "[Two-Port Data Order] 21_12", "[Two-Port Data Order] 12_21",
     "[Two-Port Order] 21_12", "[Version] 2.0", "[Version] 1.0",
     "[Version] 2.1", "[Number of Frequencies] 0", "[Number of Frequencies] 3",
-    "[Number of Frequencies] 1000000000", "[Number of Noise Frequencies] 2",
+    "[Number of Frequencies] 100000", "[Number of Frequencies] 99999999999", "[Number of Noise Frequencies] 2",
     "[Mixed-Mode Order] D2,3 D6,5 C2,3 C6,5 S4 S1", "[Begin Information]",
     "[End Information]", "[Unknown Keyword] 7", "[", "]", "[]",
     "# GHz Z DB R 75", "# kHz Y RI", "#", "# R", "# R -50", "# R 0", "# THz",
@@ -154,13 +154,14 @@ static const char *const dict_npd[] = {
     "#:z0 50 +1j 60 -1j", "#:z0 PER-FREQUENCY", "#:fz0", "#:ports 0",
     "#:ports -1", "#:ports 1000000", "#:ports 2", "#:ports 3 3",
     "#:ports 2 x 3", "#:rows 2", "#:columns 3", "#:frequencies 0",
-    "#:frequencies 99999999", "#:frequencies -2", "#NPD", "#:version 9.0",
+    "#:frequencies 100000", "#:frequencies 99999999999", "#:frequencies -2", "#NPD", "#:version 9.0",
     "#:version 1.0", "#:version", "#:fprecision 0", "#:fprecision MAX",
     "#:dprecision 1000", "#:", "#: ", "#:unknown 1", "#", "1e9", "nan",
 };
 static const char *const dict_cal[] = {
     "rows: 0", "columns: 0", "rows: -1", "rows: 100000", "columns: 70000",
-    "frequencies: 0", "frequencies: 1000000000", "frequencies: -1",
+    "frequencies: 0", "frequencies: 100000", "frequencies: 99999999999",
+    "frequencies: -1",
     "type: X9", "type: E12", "type: T16", "type: [T8]", "data: 5",
     "data: []", "data: {}", "- 3", "- f: 1", "ts: x", "ts: [1, 2]", "e: []",
     "el: ~", "z0: j", "z0: 1 2 3", "z0: +j", "name: [a]", "name: ~",
